@@ -255,6 +255,64 @@ func runSeqStage(c *lib.Ctx, rng *rand.Rand, ls *lib.Livesim, nextID *int, disti
 	for i := 0; i < nGen; i++ {
 		one(gls, layouts[i%len(layouts)].Name+"/Manifest.mpd", true, i%3 == 0, -1)
 	}
+	// breakpoint histories: the instants lie exactly ON the breakpoints of the MPD (Period starts, segment ends,
+	// each also 1 ms before and after), for timelines with and without Periods and with and without an
+	// availabilityTimeOffset
+	bpAssets := []struct {
+		asset string
+		segMS int64
+	}{{"testpic_2s/Manifest.mpd", 2000}, {"testpic_8s/Manifest.mpd", 8000}, {"testpic_alt_seg_dur_stl/Manifest.mpd", 4000}}
+	bpN := 0
+	for rep := 0; rep < nGrid; rep++ {
+		for _, per := range []int{0, 30, 60, 120, 360} {
+			for _, ato := range []string{"", "ato_0.5", "ato_1", "ato_1.5/ltgt_3000"} {
+				for _, mode := range []string{"segtimeline_1", "segtimelinenr_1"} {
+					a := bpAssets[bpN%len(bpAssets)]
+					bpN++
+					ttl := []int{10, 30, 60}[rng.Intn(3)]
+					opts := fmt.Sprintf("patch_%d/%s", ttl, mode)
+					step := a.segMS
+					if per > 0 {
+						opts += fmt.Sprintf("/periods_%d", per)
+						if rng.Intn(2) == 0 {
+							opts += "/continuous_1"
+						}
+						step = 3600000 / int64(per)
+					}
+					if ato != "" {
+						opts += "/" + ato
+					}
+					if rng.Intn(3) == 0 {
+						opts += "/tsbd_" + []string{"10", "25", "90"}[rng.Intn(3)]
+					}
+					b := step * (1 + rng.Int63n(1000000)) // a breakpoint: Period start or (multiple of a) segment end
+					if rng.Intn(3) == 0 {
+						b = step * (2 + rng.Int63n(900)) // early in the stream
+					}
+					times := []int64{b - a.segMS - 500, b - 1, b, b + 1, b + 700, b + a.segMS - 1, b + a.segMS, b + a.segMS + 1, b + step - 1, b + step, b + step + 1}
+					sort.Slice(times, func(i, j int) bool { return times[i] < times[j] })
+					var uniq []int64
+					for _, t := range times {
+						if len(uniq) == 0 || t > uniq[len(uniq)-1] {
+							uniq = append(uniq, t)
+						}
+					}
+					in := c11in{Kind: "l1seq", Stream: "l1seq", URL: "/livesim2/" + opts + "/" + a.asset, Times: uniq}
+					id := *nextID
+					*nextID++
+					sid := fmt.Sprint(id)
+					c.Res.Inputs[sid] = in
+					st := runSeq(c, ls, sid, in)
+					c.Res.Evaluations += st.Pairs
+					c.Count("l1seq:breakpoint-history")
+					if st.Served > 0 {
+						distinct[fmt.Sprint("seq", in.URL, in.Times[0])] = true
+					}
+				}
+			}
+		}
+	}
+
 	// the pairwise grid addressing mode x periods x start x stop, on the plain bundled assets
 	gridAssets := []string{"testpic_2s/Manifest.mpd", "testpic_8s/Manifest.mpd", "testpic_alt_seg_dur_stl/Manifest.mpd"}
 	for rep := 0; rep < nGrid; rep++ {
